@@ -58,12 +58,16 @@ using EnableIfFungible =
 // element type use the array encoding, so fungible element types are only
 // interchangeable when both are integral or both are non-integral (e.g. int and
 // a value wrapper around int are fungible on their own but not as elements).
+// Element types are stripped of cv and reference qualifiers but not decayed:
+// decay would turn the elements of a nested C array (T[N][M]) into pointers and
+// drop their extents, making T[N][M] and T[N][K] compare as fungible.
 template <typename A, typename B>
 struct IsFungibleElement
-    : And<IsFungible<std::decay_t<A>, std::decay_t<B>>,
+    : And<IsFungible<std::remove_cv_t<std::remove_reference_t<A>>,
+                     std::remove_cv_t<std::remove_reference_t<B>>>,
           std::integral_constant<
-              bool, std::is_integral<std::decay_t<A>>::value ==
-                        std::is_integral<std::decay_t<B>>::value>> {};
+              bool, std::is_integral<std::remove_reference_t<A>>::value ==
+                        std::is_integral<std::remove_reference_t<B>>::value>> {};
 
 // Compares two function types to see if the return types and arguments are
 // fungible.
